@@ -28,8 +28,16 @@ Judge(e) ==
 \* Conformance of the parser to the token-level grammar (spec/Grammar.tla): reported as DRIFT only,
 \* because C16 does not promise WHICH outcome a corrupted file gets
 ParseStage(e) == LET I == {i \in 1..Len(e.stages) : e.stages[i].s = "parse"} IN IF I = {} THEN "none" ELSE e.stages[CHOOSE i \in I : TRUE].o
+FParseStage(e) == LET I == {i \in 1..Len(e.stages) : e.stages[i].s = "parse-factors"} IN IF I = {} THEN "none" ELSE e.stages[CHOOSE i \in I : TRUE].o
 Drift(e) ==
-  IF e.ev # "Fault" \/ e.kind # "comps" THEN {}
+  IF e.ev # "Fault" THEN {}
+  ELSE IF e.kind = "factors" THEN
+       LET pc == FactorsParseClass(e.lines)  o == FParseStage(e) IN
+       IF pc = "Unknown" \/ o \in {"none", "Panic"} THEN {}
+       ELSE IF pc = "ParseError" /\ o # "ParseError" THEN {"factor_grammar_refuses_but_parser_returns_" \o o}
+       ELSE IF pc = "Parsed" /\ o = "ParseError" THEN {"factor_grammar_accepts_but_parser_refuses"}
+       ELSE {}
+  ELSE IF e.kind # "comps" THEN {}
   ELSE LET pc == ParseClass(e.lines)  o == ParseStage(e) IN
        IF pc = "Unknown" \/ o \in {"none", "Panic"} THEN {}
        ELSE IF pc = "ParseError" /\ o # "ParseError" THEN {"grammar_refuses_but_parser_returns_" \o o}
@@ -45,6 +53,7 @@ Next ==
      IN /\ (bad # {} => PrintT(<<"VERDICT", ToJson([prop |-> "C16", case |-> e.case, tag |-> e.tag, clauses |-> bad])>>))
         /\ (dr # {} => PrintT(<<"DRIFT", ToJson([prop |-> "C16", case |-> e.case, tag |-> e.tag, clauses |-> dr])>>))
         /\ (e.ev = "Fault" /\ e.kind = "comps" /\ ParseClass(e.lines) # "Unknown" => PrintT(<<"NOTE", ToJson([predicted |-> e.case])>>))
+        /\ (e.ev = "Fault" /\ e.kind = "factors" /\ FactorsParseClass(e.lines) # "Unknown" => PrintT(<<"NOTE", ToJson([predicted |-> e.case])>>))
         /\ nbad' = nbad + (IF bad = {} THEN 0 ELSE 1)
   /\ l' = l + 1
 Spec == Init /\ [][Next]_vars
